@@ -94,6 +94,13 @@ func Scenarios(thorough bool) []Scenario {
 	add("rtclose;hostcompile", nil, []Op{RC, HC}, []Op{L("a")})
 	add("rtclose;host-a||look-a", nil, []Op{RC, H("a")}, []Op{L("a")})
 	add("rtclose||inst-a||close-M0", a, []Op{RC}, []Op{I("b")}, []Op{C("M0")})
+	// a caller that saw the runtime closed (its own Close returned, or compile/instantiate refused) must find every module closed
+	add("rtclose||compile;look-a", a, []Op{RC}, []Op{CM, L("a")})
+	add("rtclose||compile;isclosed-M0", a, []Op{RC}, []Op{CM, Q("M0")})
+	add("rtclose||rtclose;look-a", a, []Op{RC}, []Op{RC, L("a")})
+	add("rtclose||rtclosecode;isclosed-M0", a, []Op{RC}, []Op{RCC, Q("M0")})
+	add("rtclose||inst-anon;look-a", a, []Op{RC}, []Op{I(""), L("a")})
+	add("rtclose||hostcompile;isclosed-M0", a, []Op{RC}, []Op{HC, Q("M0")})
 	add("compile||compile", nil, []Op{CM}, []Op{CM})
 	add("host-a||host-a", nil, []Op{H("a")}, []Op{H("a")})
 	add("host-a;close||inst-a", nil, []Op{H("a"), C("mine")}, []Op{I("a")})
